@@ -98,9 +98,9 @@ def run(prop, t, budget, inflate, extra_part=None):
 
     def body(data):
         entry, mi, L = pc.draw_target(data)
-        vals = data.draw(values.level_values(L, max_entries=3, inflate=inflate), label="values")
-        bg = data.draw(st.sampled_from([0x00, 0xFF, 0xCD, 0x5A]), label="background")
         M = entry.model
+        vals = data.draw(values.level_values(L, max_entries=3, inflate=inflate, model=M), label="values")
+        bg = data.draw(st.sampled_from([0x00, 0xFF, 0xCD, 0x5A]), label="background")
         img, size = M.encode_message(L, vals, background=bg)
         nontrivial = False
         if inflate:
@@ -116,7 +116,29 @@ def run(prop, t, budget, inflate, extra_part=None):
             res.cls("images_inflated")
         if len(res.samples) < 6 and nontrivial and (len(res.samples) < 2 or res.evaluations % 97 < 9):
             res.sample({"schema": entry.dir.split("/")[-1], "message": L.name, "values": values.tree_hash_key(vals), "image_hex": img.hex()[:200]})
+        if size > 20000:
+            res.cls("images_with_block_length_near_or_above_2^16")
         check_dump(pc, entry, mi, L, vals, img, size, modes, inflate)
+        if inflate:
+            # size_bytes reports the wire size (message, groups, entries, data) for extended images too
+            from vlib.checks import c05
+            exp = c05.expected_sizes(M, L, vals, size)
+            if not cursor_end_checkable(L):
+                exp = [x for x in exp if not x.startswith("cursor_size=")]
+            for cfg in entry.status["configs"]:
+                resp = pc.call(entry, cfg, "sizes %d %s" % (mi, img.hex()))
+                res.count()
+                got = resp[3:].split() if resp.startswith("OK ") else None
+                if got is not None and not cursor_end_checkable(L):
+                    got = [x for x in got if not x.startswith("cursor_size=")]
+                if got != exp:
+                    bad = resp[:200]
+                    if got is not None:
+                        bad = next(("expected %s got %s" % (a, b) for a, b in zip(exp, got) if a != b), "expected %d values got %d" % (len(exp), len(got)))
+                    pc.fail("size-mismatch:inflated" if got is not None else "size-%s:inflated" % resp.split(" ")[0].lower(), entry,
+                            {"cmd": "sizes", "config": cfg, "message": mi, "mode": "sizes", "values": values.tree_hash_key(vals), "image_hex": img.hex(),
+                             "expected": " ".join(exp), "actual": resp[:2000]},
+                            "[%s sizes] message %s: %s" % (cfg, L.name, bad))
 
     pc.run_hypothesis(body, 2500 if t == "quick" else 40000)
     if extra_part is not None:
@@ -132,6 +154,14 @@ def replay(path):
         return 1
     try:
         d = poolcheck.poolmod.Driver(entry.driver(case["config"]))
+        if case.get("mode") == "sizes":
+            resp = d.call("sizes %d %s" % (case["message"], case["image_hex"]))
+            d.close()
+            print("expected:", case["expected"][:800])
+            print("actual:  ", resp[:800])
+            ok = resp == "OK " + case["expected"]
+            print("replay:", "holds now" if ok else "STILL FAILS")
+            return 0 if ok else 1
         resp = d.call("dump %d %s %s" % (case["message"], case["mode"], case["image_hex"]))
         d.close()
         print("expected:", case["expected"][:1500])
